@@ -203,6 +203,7 @@ type GenCfg struct {
 	Observers  bool // allow CSel/NSel observer calls
 	NoReset    bool // never start with Reset (zero-value histories)
 	ForceReset bool // always start with Reset
+	LongRuns   int  // weight (out of ~90) of runs of 37..300 identical drawing calls
 	WildStops  bool // gradient stops in any order (C18: the caller's slice must not be touched whatever it holds)
 	ReadFirst  bool // bias towards reading state before writing it (C17's program B)
 	Dirty      bool // bias towards dirtying all state (C17's program A)
@@ -336,11 +337,13 @@ func (g *gen) path() {
 	for r := 0; r < nRuns; r++ {
 		k := drawKinds[t.Intn(len(drawKinds))]
 		n := 1
-		switch t.Pick(5, 3, 1) {
+		switch t.Pick(50, 30, 10, g.cfg.LongRuns) {
 		case 1:
 			n = t.Range(2, 5)
 		case 2:
-			n = t.Range(15, 36)
+			n = t.Range(15, 36) // across the 16/32 repeat limits of one opcode
+		case 3:
+			n = t.Range(37, 300) // hundreds of buffered arguments in one run
 		}
 		for i := 0; i < n; i++ {
 			g.emit(g.drawOp(k))
